@@ -266,7 +266,7 @@ def run(ctx, owned="C12"):
     schedules = {}
     for K in ((2, 3, 4) if tier == "quick" else (2, 3, 4, 5)):
         cfg = tlc.make_cfg(constants=dict(K=K), spec="Spec", invariants=["EnvFresh", "HalfSweep", "FullSweep", "EmitSchedule"])
-        r = tlc.run("TreeSweep", cfg, mode="emit", timeout=3000)
+        r = tlc.run("TreeSweep", cfg, mode="emit", vacuity=True, timeout=3000)
         ctx.add_tlc(r, f"TreeSweep K={K}: every increasing tree, forward + backward half sweep")
         if r["violated"]:
             ctx.violation(f"C12:spec:{r['violated']}", "TreeSweep violates " + r["violated"], {"tlc": r.get("error_text", "")[:2000]})
@@ -275,7 +275,7 @@ def run(ctx, owned="C12"):
     trees_ = list(schedules)
     for K in ((2, 3, 4) if tier == "quick" else (2, 3, 4, 5)):
         cfg = tlc.make_cfg(constants=dict(K=K, Mode='"ps2"', Bug='"none"'), spec="Spec", invariants=["EnvFresh", "CentreHome", "NetTime", "EmitSchedule"])
-        r = tlc.run("TreeOpt", cfg, mode="emit", timeout=3000)
+        r = tlc.run("TreeOpt", cfg, mode="emit", vacuity=True, timeout=3000)
         ctx.add_tlc(r, f"TreeOpt ps2 K={K}: every increasing tree, two-site forward + backward recursion")
         if r["violated"]:
             ctx.violation(f"C12:spec:TreeOpt:{r['violated']}", "TreeOpt violates " + r["violated"], {"tlc": (r.get("error_text") or "")[:2000]})
